@@ -175,6 +175,7 @@ def run_unit(unit, acc):
     uni = Universe(seed)
 
     def visit(spec, trace, parent, last):
+        scratch_status = None
         for mode in ("scratch", "reloaded", "live"):
             if mode != "scratch" and last is None:
                 continue
@@ -183,6 +184,12 @@ def run_unit(unit, acc):
             acc.ev()
             acc.trace()
             tag = {"scratch": "cycle", "reloaded": "reloaded-start", "live": "edit-after-write"}[mode]
+            if mode == "scratch":
+                scratch_status = o["status"]
+            if o["status"] == "refused" and mode != "scratch" and scratch_status != "refused":
+                # the very same description is written when it is built from scratch: reached another way it must be writable too
+                o = {"status": "bad", "problems": ["the description is written when built from scratch, but refused when reached through "
+                                                    "%s: %s" % ("a re-read object" if mode == "reloaded" else "an object that had been written before", "; ".join(o["problems"]))]}
             if o["status"] == "refused":
                 acc.outcome(tag + ":refused")
                 acc.n["refused"] += 1
